@@ -265,6 +265,88 @@ fn run_prog(p: &Prog, out: &mut Out) {
     }
 }
 
+/// Keys pressed while the program is still running must not change when and how it halts: for every
+/// program that comes to a halt, and every clock edge before the halt, one stimulus (continue key,
+/// continue twice, interrupt key, an input change) is applied at that edge; the monitor judges every
+/// edge as in the undisturbed run. (The continue key only ever releases a machine that *is* Stopped.)
+fn stimuli_while_running(progs: &[Prog], out: &mut Out) {
+    #[derive(Clone, Copy, Debug)]
+    enum S {
+        Continue,
+        ContinueTwice,
+        Interrupt,
+        Input,
+    }
+    for p in progs {
+        // length of the undisturbed run
+        let t_halt = match mc::catch(|| {
+            let mut m = p.machine();
+            let mut n = 0u32;
+            while n < p.edges.min(400) && m.state() == State::Running {
+                m.raw_mut().trigger_clock_edge();
+                n += 1;
+            }
+            if m.state() == State::Running { None } else { Some(n) }
+        }) {
+            Ok(Some(n)) => n,
+            _ => continue,
+        };
+        for t in 0..t_halt {
+            for s in [S::Continue, S::ContinueTwice, S::Interrupt, S::Input] {
+                out.runs += 1;
+                let line = format!("{} # with {:?} before edge {}", p.line(), s, t);
+                mc::watch::progress(|| line.clone());
+                let r = mc::catch(|| {
+                    let mut m = p.machine();
+                    let mut st = MonStats::default();
+                    for e in 0..t_halt + 40 {
+                        if e == t {
+                            match s {
+                                S::Continue => m.trigger_key_continue(),
+                                S::ContinueTwice => {
+                                    m.trigger_key_continue();
+                                    m.trigger_key_continue();
+                                }
+                                S::Interrupt => m.trigger_key_interrupt(),
+                                S::Input => m.set_input_fd(0xA5),
+                            }
+                        }
+                        if let Some(v) = monitored_edge(&mut m, &mut st) {
+                            return (st, Some(v), m.state());
+                        }
+                        if m.state() != State::Running {
+                            break;
+                        }
+                    }
+                    (st, None, m.state())
+                });
+                match r {
+                    Ok((st, viol, end)) => {
+                        out.st.edges += st.edges;
+                        if let Some((k, w)) = viol {
+                            let e = out.bad.entry(format!("running-stimulus/{}", k)).or_default();
+                            if e.len() < 5 {
+                                e.push((line, format!("[{}] {:?} pressed before edge {}: {}", p.name, s, t, w)));
+                            }
+                        } else if end == State::Running && !matches!(s, S::Interrupt) {
+                            let e = out.bad.entry("running-stimulus/halt-lost".to_string()).or_default();
+                            if e.len() < 5 {
+                                e.push((line, format!("[{}] the undisturbed run halts after {} edges; with {:?} before edge {} the machine is still Running 40 edges later", p.name, t_halt, s, t)));
+                            }
+                        }
+                    }
+                    Err(pi) => {
+                        let e = out.bad.entry(format!("panic/{}", pi.file())).or_default();
+                        if e.len() < 5 {
+                            e.push((line, format!("[{}] panic at {}: {}", p.name, pi.site(), pi.msg)));
+                        }
+                    }
+                }
+            }
+        }
+    }
+}
+
 fn programs(quick: bool) -> Vec<Prog> {
     let mut v = vec![];
     let free_p = Programsize::Size(255);
@@ -753,6 +835,35 @@ pub fn run() {
     });
     let mut all = Out::default();
     loaded_programs(&mut all);
+    // keys pressed while the program runs: the two-instruction sequences under one setting and the
+    // halting opcode-byte programs
+    {
+        let chosen: Vec<Prog> = progs
+            .iter()
+            .filter(|p| (p.name.starts_with("seq ") && p.name.matches('[').count() == 2 && p.stack == Stacksize::_16 && p.prog == Programsize::Size(0xFF) && p.case.cpu.sp == 0xE0) || (p.name.starts_with("second byte 0x0") && p.stack == Stacksize::_16))
+            .cloned()
+            .collect();
+        let outs = mc::par_ranges(chosen.len(), chosen.len().max(1), |rg| {
+            let mut o = Out::default();
+            stimuli_while_running(&chosen[rg], &mut o);
+            mc::watch::idle();
+            o
+        });
+        let mut n = 0u64;
+        for o in outs {
+            n += o.runs;
+            all.st.edges += o.st.edges;
+            for (k, v) in o.bad {
+                let e = all.bad.entry(k).or_default();
+                for c in v {
+                    if e.len() < 5 {
+                        e.push(c);
+                    }
+                }
+            }
+        }
+        ctx.set("runs_with_a_key_pressed_while_running", n);
+    }
     for o in outs {
         all.st.edges += o.st.edges;
         all.st.flips_error_rule += o.st.flips_error_rule;
